@@ -27,13 +27,15 @@ type pendingReload struct {
 }
 
 type Model struct {
-	cfg      CacheCfg
-	m        map[int]*mEntry
-	now      int64
-	max      uint64
-	reloads  map[int]*pendingReload
-	added    uint64 // total weight written by the current op
-	optional []expEvent
+	cfg     CacheCfg
+	m       map[int]*mEntry
+	now     int64
+	max     uint64
+	reloads map[int]*pendingReload
+	added   uint64 // total weight written by the current op
+	// values installed by loader outcomes during the current op (key -> value)
+	loadInstalls map[int]int
+	optional     []expEvent
 	// deferred executor: loader calls that queued executor tasks must still make
 	pending []expLoad
 }
@@ -436,6 +438,10 @@ func (m *Model) applyLoads(loads []LoadCall, hooks []CalcCall) []expEvent {
 		for _, k := range keys {
 			if v, ok := lc.Out[k]; ok && lc.Err == "" {
 				wr := m.write(k, v, hooksFor(hooks, k), otter.CauseReplacement)
+				if m.loadInstalls == nil {
+					m.loadInstalls = map[int]int{}
+				}
+				m.loadInstalls[k] = v
 				// an earlier loader call of this very operation may already have removed the entry (optional removal):
 				// then its report carries that call's cause
 				for i := 0; i < len(m.optional); i++ {
